@@ -134,8 +134,8 @@ class Entry:
             if v is None:        # decided by the result: a PROTOCOL_ERROR reset handed back to the caller, or nothing
                 internal = (res[0] == 1 and res[1] == 11 and bytes(res[4]) == b"too_many_internal_resets")
                 v = "HBad" if (((res[0] == 2 and res[1] == 1) or (internal and not f["quota"])) and f["reached"]) else "HOk"
-            return "(LRecvHeaders %d %s %s (mkH %s %s %s %s %s) %d)" % (f["sid"], B(f["eos"]), B(f["info"]), B(f["can_open"]), B(f["can_count"]),
-                                                                        v, B(f["quota"]), B(f["can_reset"]), f["nk"])
+            return "(LRecvHeaders %d %s %s (mkH %s %s %s %s %s %s) %d)" % (f["sid"], B(f["eos"]), B(f["info"]), B(f["can_open"]), B(f["can_count"]),
+                                                                           v, B(f["quota"]), B(f["can_reset"]), B(f["no_method"]), f["nk"])
         if k == "LRecvData":
             if res[0] == 1 and res[1] == 3:
                 dv = "DConnWindow"
@@ -256,7 +256,8 @@ class Projector:
                 verdict = None
             # `reached`: the frame got as far as the header checks (not ignored / refused before)
             e = Entry("LRecvHeaders", sid=sid, eos=eos, info=info, can_open=can_open, can_count=can_count, verdict=verdict,
-                      quota=quota, can_reset=can_reset, reached=not (info and eos), nk=nk)
+                      quota=quota, can_reset=can_reset, reached=not (info and eos), nk=nk,
+                      no_method=bool(a[22]) if len(a) > 22 else False)
             e.rec, e.ids = orec, ids
         elif name == "disp.recv_data":
             sid, eos, plen, flen = a[0:4]
@@ -643,7 +644,7 @@ THEOREMS = {
     "C09": ["C09_wire_other_streams_untouched", "C09_wire_conn_error_required_except_known", "C09_wire_idle_is_conn_error",
             "C09_wire_refused_not_surfaced", "C09_wire_stream_error_resets", "C09_wire_poll2_reset", "C09_wire_tolerated",
             "C09_wire_forgotten_tolerated", "C09_wire_new_stream_tolerated", "C09_wire_conn_error_required_refuted",
-            "C09_wire_lenient_witnesses", "C09_wire_push_refusal_fix_needed"],
+            "C09_wire_lenient_witnesses", "C09_wire_push_refusal_fix_needed", "C09_wire_push_only_on_a_seen_request"],
     "C17": ["C17_wire_explicit_reset", "C17_wire_last_drop", "C17_wire_pop_scheduled", "C17_wire_reset_emitted_only_if_queued",
             "C17_wire_no_second_reset", "C17_wire_drop_after_end_nothing", "C17_wire_peer_reset_reaches_handles",
             "C17_wire_peer_reset_surfaces_exact", "C17_wire_conn_error_reaches_handles", "C17_wire_go_away_reaches_handles",
@@ -662,8 +663,9 @@ PARTIAL = {
            "block contiguity and frame-type/stream-0 rules are the codec's (C12); the wire sender oracle stays the search side",
     "C09": "PARTIAL (dispatch layer, Properties/C09_wire.v): proved for one step from any state - confinement to the frame's own stream, "
            "connection error where RFC 9113 5.1 demands one EXCEPT the characterised `lenient` classes (frames on a promised stream whose "
-           "PUSH_PROMISE is still queued, on a locally reset stream, PUSH_PROMISE on a request still waiting for a slot, HEADERS on reserved(local), "
-           "WINDOW_UPDATE / nested PUSH_PROMISE on reserved(remote): closed witnesses, reproduced on the real crate), refused frames never handed to "
+           "PUSH_PROMISE is still queued, on a locally reset stream, HEADERS on reserved(local), WINDOW_UPDATE on reserved(remote): a stream error "
+           "or silence instead of GOAWAY; closed witnesses, reproduced on the real crate; the two classes that handed something to the "
+           "application were repaired, 28d67d9), refused frames never handed to "
            "the application, stream error => reset of that stream, tolerance of every frame 5.1 permits; the record-shape hypotheses wf_shape / "
            "ids_wf are checked at every label of every lock-step run, their invariance is not proved; connection-level frames (SETTINGS, PING, "
            "framing, HPACK) are C12/C14; the reaction / tolerance oracles stay the search side",
